@@ -62,8 +62,12 @@ def _bound_switches(b):
 
 
 def _is_bound_of_self(src, which):
+    """self.range.start_bound() / end_bound(), the tuple component behind it, or the like-named field of a private
+    struct that replaced the tuple (`self.range.start` / `.end`)"""
     src = src.strip()
-    return (src.k == "call" and src.x["path"].endswith("::" + which) and is_self_field(src.a[0], "range")) or is_self_field(src, "range", "0" if which == "start_bound" else "1")
+    if src.k == "call" and src.x["path"].endswith("::" + which) and is_self_field(src.a[0], "range"):
+        return True
+    return is_self_field(src, "range", "0" if which == "start_bound" else "1") or is_self_field(src, "range", which[: -len("_bound")])
 
 
 def far_test(b, D):
@@ -159,7 +163,7 @@ def r2_start_table(ck, F, d):
     if not ck.ob(R, f"switch-on-near-bound/{d}", sw is not None and set(sw[1]) == {"Included", "Excluded", "Unbounded"}, f"{D['next']} positions by matching on all three Bound variants", b):
         return
     bb, labels, src = sw
-    ok_src = src.k == "call" and src.x["path"].endswith("::" + D["near"]) and is_self_field(src.a[0], "range")
+    ok_src = _is_bound_of_self(src, D["near"])
     ck.ob(R, f"near-bound-source/{d}", ok_src, f"first call matches on self.range.{D['near']}() (got {src.show()[:80]})", b)
     # Unbounded
     reg = arm_region(b, bb, labels["Unbounded"])
@@ -171,7 +175,7 @@ def r2_start_table(ck, F, d):
     ok = [n for s, n, t in cl] == [D["seek"]]
     if ok:
         a = b.arg_exprs(cl[0][0])
-        ok = is_self_field(a[0], "cursor") and any(e.k == "downcast" and e.x["variant"] == "Included" for e in a[1].walk()) and any(e.k == "call" and e.x["path"].endswith("::" + D["near"]) for e in a[1].walk())
+        ok = is_self_field(a[0], "cursor") and any(e.k == "downcast" and e.x["variant"] == "Included" and _is_bound_of_self(e.a[0], D["near"]) for e in a[1].walk())
     ck.ob(R, f"arm/{d}/Included", ok, f"Included(b) -> {[n for s, n, t in cl]} on b (expected [{D['seek']}(b)])", b)
     # Excluded
     reg = arm_region(b, bb, labels["Excluded"])
@@ -298,7 +302,7 @@ def r4_once(ck, F, d):
     for s, rv in ag:
         ck.ob(R, f"flag-initially-true/{d}", const_val(agg_field_expr(nb, s, rv, "move_on_start")) == 1, "a new iterator starts with the flag set", nb, s)
         rng = agg_field_expr(nb, s, rv, "range")
-        ok = rng.k == "agg" and rng.x.get("ak") == "tuple" and len(rng.a) == 2
+        ok = rng.k == "agg" and len(rng.a) == 2 and (rng.x.get("ak") == "tuple" or (rng.x.get("fields") or []) == ["start", "end"])
         if ok:
             s0, s1 = rng.a
             ismap = lambda z: is_call(z, A("map_bound")) or is_call(z, "ops::Bound::<T>::map")
